@@ -7,7 +7,7 @@ cd "$wt" || exit 2
 git checkout -q -- . ; git clean -fdq
 place=$(python3 -c "import json;print(json.load(open('$out/m$n.json'))['demo_place'].split()[0])")
 cmd=$(python3 -c "import json,re;print(re.split(r'\s{2,}\(', json.load(open('$out/m$n.json'))['demo_cmd'])[0])")
-cmd=$(echo "$cmd" | sed -E 's#cd /tmp/mut2?/C[0-9]+ *&& *##')
+cmd=$(echo "$cmd" | sed -E 's@cd /tmp/mut[0-9]*/C[0-9]+ *&& *@@')
 if ! git apply "$out/m$n.diff" 2>/dev/null; then echo "RESULT $out m$n patch-does-not-apply"; exit 0; fi
 b=ok
 for m in . fuzz tests; do (cd $m && go test -vet=off -count=1 ./... >/dev/null 2>&1) || b=FAIL; done
